@@ -84,6 +84,13 @@ fn gen_plan(seed: u64, tier: Tier) -> PlanP {
         if rng.chance(1, 3) {
             p.faults.push(Fault { kind: EnvKind::Upload, rep: rng.below(k as u64) as u32, ap: 0, from: CLIENT, to: rng.below(2) as u8, round: 0, at_source: false, act: Act::Dup });
         }
+        // the same process also shards / verifies for other tasks (other lengths, other contexts) in between
+        if rng.chance(1, 3) {
+            for _ in 0..1 + rng.below(3) {
+                let f = crate::checks_a::gen_foreign(rng, &p, 6 * k as u32 + 2);
+                p.foreign.push(f);
+            }
+        }
         PlanP::A { plan: p }
     } else if mode < 7 {
         // Byzantine client: the public `shard` accepts arbitrary u32 entries
